@@ -1492,7 +1492,25 @@ class Normaliser:
         for p in params:
             counts[p] = counts.get(p, 0) + 1
         stable = lambda e: all(counts.get(x.id, 0) <= 1 for x in ast.walk(e) if isinstance(x, ast.Name))
-        subst = {nm: d.value for nm, d in defs.items() if counts.get(nm) == 1 and nm not in params and _pure(d.value) and stable(d.value)}
+        # an attribute read is only "the same thing later" if nothing in the function stores that attribute (or rewrites the object's
+        # attributes wholesale: set_params / setattr / __dict__.update) -- otherwise the local is a snapshot and stays a local
+        # (stores / calls that come after the definition in source order, or anywhere inside a loop that also contains the definition)
+        attr_stores = [(n.attr, getattr(n, "lineno", 0)) for n in ast.walk(fn) if isinstance(n, ast.Attribute) and isinstance(n.ctx, (ast.Store, ast.Del))]
+        wholesale = [getattr(n, "lineno", 0) for n in ast.walk(fn)
+                     if isinstance(n, ast.Call) and ((isinstance(n.func, ast.Attribute) and n.func.attr in ("set_params", "__setattr__", "update") and
+                                                      ast.unparse(n.func.value) in ("self", "self.__dict__", "vars(self)"))
+                                                     or (isinstance(n.func, ast.Name) and n.func.id in ("setattr", "delattr")))]
+        loops = [(l.lineno, getattr(l, "end_lineno", l.lineno)) for l in ast.walk(fn) if isinstance(l, (ast.For, ast.While))]
+
+        def snapshot(d):
+            e, at = d.value, getattr(d, "lineno", 0)
+            lo = min([a for a, b in loops if a <= at <= b] + [at])        # inside a loop: anything in the loop may run before the next definition's uses
+            attrs = {n.attr for n in ast.walk(e) if isinstance(n, ast.Attribute)}
+            if any(a_ in attrs and (ln > at or ln >= lo) and not (ln == at) for a_, ln in attr_stores):
+                return True
+            reads_self = any(isinstance(n, ast.Attribute) and isinstance(n.value, ast.Name) and n.value.id == "self" for n in ast.walk(e))
+            return reads_self and any(ln > at or (ln >= lo and ln != at) for ln in wholesale)
+        subst = {nm: d.value for nm, d in defs.items() if counts.get(nm) == 1 and nm not in params and _pure(d.value) and stable(d.value) and not snapshot(d)}
         # module-level constants that the function does not shadow
         for nm, v in self.consts.items():
             if nm not in counts and nm not in subst:
